@@ -64,7 +64,8 @@ Definition ncols (t : table) : nat :=
    a prescription *)
 Definition gen_constraints (t : table) : result (list presc) :=
   match flat_map (fun j => flat_map (fun row => cell row j) t) (seq 0 (ncols t)) with
-  | [] => Err "ValueError: need at least one array to concatenate"
+  | [] => if gen_empty_ok then Ok []
+          else Err "ValueError: need at least one array to concatenate"
   | l => Ok l
   end.
 
